@@ -26,7 +26,7 @@ RULE = ('fp16: every 16-bit pattern once unsigned and once as int16 (exhaustive)
         'pair, packet bytes) that reached a deciding monitor.')
 ASSUMPTIONS = ['numpy.float16 conversion is IEEE-754 binary16', 'struct module packs float32 correctly',
                'LED ring memory layout: byte0=RRRRRGGG byte1=GGGBBBBB (firmware ledring12 reader)']
-REQUIRED = ['mon.led_rings_with_one_colour_at_several_intensities', 'mon.traj_elements_serialised_again', 'mon.fp16', 'mon.quat', 'mon.traj', 'mon.led', 'mon.led_timing', 'mon.range', 'mon.lh_angle',
+REQUIRED = ['mon.led_timing_sequences_with_a_black_step_after_another_step', 'mon.led_rings_with_one_colour_at_several_intensities', 'mon.traj_elements_serialised_again', 'mon.fp16', 'mon.quat', 'mon.traj', 'mon.led', 'mon.led_timing', 'mon.range', 'mon.lh_angle',
             'mon.fp16_contract', 'mon.traj_segment_boundary_values']
 EXHAUSTIVE = {'quick': False, 'thorough': False}
 EXHAUSTIVE_NOTE = 'the fp16 part (131 072 evaluations) is exhaustive in both tiers; the other parts are sampled'
@@ -503,6 +503,37 @@ def run_led_timing(desc, ctx):
                 ctx.violate('ledtiming:black-not-zero', {'ch': ch})
             if lvl == 255 and f[ch] != maxf:
                 ctx.violate('ledtiming:white-not-full-scale', {'ch': ch, 'v': f[ch]})
+    # sequences of several steps: every step carries the colour it was given, whatever the steps before it showed (black after
+    # white, the same colour twice, ...)
+    rnd = random.Random(desc.get('seed', 0) + 13)
+
+    def alone(rgb):
+        h1 = _MemHandler()
+        m1 = LEDTimingsDriverMemory(id=1, type=0x17, size=100, mem_handler=h1)
+        m1.add(time=1, rgb=dict(rgb))
+        m1.write_data(None)
+        return bytes(h1.writes[0][1][1:3])
+    palette = [{'r': 0, 'g': 0, 'b': 0}, {'r': 255, 'g': 255, 'b': 255}, {'r': 255, 'g': 0, 'b': 0}, {'r': 0, 'g': 8, 'b': 0}]
+    for it in range(60):
+        steps = [dict(rnd.choice(palette)) if rnd.random() < 0.6 else {'r': rnd.randrange(256), 'g': rnd.randrange(256), 'b': rnd.randrange(256)}
+                 for _ in range(rnd.randint(2, 10))]
+        if it % 3 == 0:
+            steps[rnd.randrange(1, len(steps))] = {'r': 0, 'g': 0, 'b': 0}
+        h = _MemHandler()
+        mem = LEDTimingsDriverMemory(id=1, type=0x17, size=200, mem_handler=h)
+        for st in steps:
+            mem.add(time=rnd.randint(1, 200), rgb=dict(st))
+        mem.write_data(None)
+        data = bytes(h.writes[0][1])
+        ctx.evals()
+        ctx.count('mon.led_timing_sequences')
+        if any(st == palette[0] for st in steps[1:]):
+            ctx.count('mon.led_timing_sequences_with_a_black_step_after_another_step')
+        got = [data[4 * k + 1:4 * k + 3] for k in range(len(steps))]
+        want = [alone(st) for st in steps]
+        if len(data) != 4 * len(steps) + 4 or got != want:
+            ctx.violate('ledtiming:sequence:step-does-not-carry-its-own-colour',
+                        {'steps': steps[:10], 'words': [g.hex() for g in got], 'words_when_sent_alone': [w.hex() for w in want], 'bytes': len(data)})
     ctx.sample({'led timing levels checked': 768})
 
 
